@@ -1569,9 +1569,34 @@ def _random_groups(rng, names):
     return groups
 
 
+def gen_affine(rng, cfg, depth):
+    """a formula affine in the array `t` (sums / products with t-free factors): the fragment for which
+    `recursive_substitution` substitutes arrays symbolically (numpy_compatible_add / numpy_compatible_mul)"""
+    scfg = Cfg(**dict(cfg.__dict__, elementwise=[], index=False, bindex=False, sums=False))
+    if depth <= 0 or rng.random() < 0.2:
+        return var('t')
+    k = rng.random()
+    if k < 0.35:
+        other = gen_affine(rng, cfg, depth - 1) if rng.random() < 0.5 else gen_num(rng, scfg, rng.randint(0, 2))
+        pair = (gen_affine(rng, cfg, depth - 1), other)
+        return (rng.choice(['add', 'sub']),) + (pair if rng.random() < 0.5 else pair[::-1])
+    if k < 0.85:
+        pair = (gen_num(rng, scfg, rng.randint(0, 2)), gen_affine(rng, cfg, depth - 1))
+        return ('mul',) + (pair if rng.random() < 0.5 else pair[::-1])
+    return ('neg', gen_affine(rng, cfg, depth - 1))
+
+
 def fam_partial(ctx, n):
     rng = ctx.fork('partial')
     cases = []
+    # arrays substituted symbolically (any position in the order): formulas affine in the array
+    for i in range(n // 5):
+        cfg = Cfg(numbers=rng.choice(['dyadic', 'int']), elementwise=['t'], array_len=rng.choice([1, 2, 3, 4]))
+        tree = gen_affine(rng, cfg, rng.randint(1, 3))
+        env = gen_env(rng, tree, cfg, rng.choice([('int', 'float'), ('float',), ('int',)]))
+        groups = _random_groups(rng, env.keys())
+        cases.append(mk_partial(tree, env, {'groups': groups, 'final': 'numeric'}))
+        ctx.count('partial:array-substituted-symbolically')
     for i in range(n):
         r = rng.random()
         if r < 0.55:
